@@ -290,3 +290,13 @@ func freshName(hint string) string {
 	freshCounter++
 	return fmt.Sprintf("%s!%d", smtName("v_", hint), freshCounter)
 }
+
+// eix is the element index off+i of a slice, wrapped in an uninterpreted function so that
+// quantifier triggers over slice elements contain no interpreted arithmetic (solvers
+// normalise sums, which breaks syntactic matching of patterns such as (+ off j)).
+func eix(off, i Term) Term {
+	if off.S == "0" {
+		return i
+	}
+	return app(SInt, "eix", off, i)
+}
